@@ -272,14 +272,14 @@ def run(ctx):
                 mp = mparts[k].split(":", 2)
                 m_ao, m_res, m_cls = int(mp[0].split("=")[1]), mp[1], ([] if mp[2] == "-" else mp[2].split(","))
                 if m_ao != ao:
-                    mism.append(("append_only state", il[si], ps, mparts[k]))
+                    mism.append(("append_only state", il[si], ps, mparts[k], k))
                 # an `err` (e.g. a damaged file made the preparation fail before the guard was reached)
                 # is compatible with a modelled refusal as long as nothing touched the storage
                 if (res == "refused" and m_res != "refused") or (res in ("ok", "panic") and m_res == "refused"):
-                    mism.append(("refusal", il[si], ps, mparts[k]))
+                    mism.append(("refusal", il[si], ps, mparts[k], k))
                 for c in cls:
                     if m_res == "refused" or not class_allowed(c, m_cls):
-                        mism.append(("effect class %s not in the model's table" % c, il[si], ps, mparts[k]))
+                        mism.append(("effect class %s not in the model's table" % c, il[si], ps, mparts[k], k))
                     else:
                         seen_model_cls.setdefault(name, set()).add(c.rsplit(":", 1)[0] if c.startswith("W:") else c)
             if len(samples) < 6 and ao and (res == "refused" or cls) and name not in [s["op"][0] for s in samples]:
@@ -294,6 +294,31 @@ def run(ctx):
         "disagreements_checked": len(mism) + len(viol), "model_impl_mismatches": len(mism), "oracle_violations": len(viol),
         "entry_table": (meta or {}).get("entries"),
     })
+    def reproduces(line, k, observed):
+        for _ in range(2):
+            o2 = run_lines(impl, [line], "seq", "c")[0].split(" ; ")
+            if k >= len(o2) or parse_impl_op(o2[k])[2:] != parse_impl_op(observed)[2:]:
+                return False
+        return True
+    kept = []
+    for m in mism:
+        if len(m) == 5 and not reproduces(m[1], m[4], m[2]):
+            hist["unconfirmed_mismatch_dropped"] = hist.get("unconfirmed_mismatch_dropped", 0) + 1
+            continue
+        kept.append(m)
+    mism = kept
+    cov["model_impl_mismatches"] = len(mism)
+    # confirm: a violation seen on a repository trace must reproduce when its sequence is run alone
+    # (a failed operation can leave writer threads behind whose late write lands in a later window)
+    confirmed = []
+    for what, wit, sig in viol:
+        if "impl_line" in wit and "op_index" in wit:
+            if not reproduces(wit["impl_line"], wit["op_index"], wit["observed"]):
+                hist["unconfirmed_violation_dropped"] = hist.get("unconfirmed_violation_dropped", 0) + 1
+                continue
+        confirmed.append((what, wit, sig))
+    viol = confirmed
+    cov["oracle_violations"] = len(viol)
     seen = set()
     for what, wit, sig in viol:
         if (what, sig) in seen: continue
